@@ -117,7 +117,7 @@ func (p *Parser) ExtractPatterns(file *ast.File, info *types.Info, wireAlias str
 				}
 
 				for i, value := range valueSpec.Values {
-					call, ok := value.(*ast.CallExpr)
+					call, ok := ast.Unparen(value).(*ast.CallExpr)
 					if !ok {
 						continue
 					}
@@ -240,7 +240,7 @@ func (p *Parser) parseNewSet(call *ast.CallExpr, info *types.Info, wireAlias str
 
 // parseSetElement parses an element within wire.NewSet.
 func (p *Parser) parseSetElement(expr ast.Expr, info *types.Info, wireAlias string, filePath string) WirePattern {
-	switch e := expr.(type) {
+	switch e := ast.Unparen(expr).(type) {
 	case *ast.CallExpr:
 		// Nested wire call (Bind, Value, etc.)
 		pattern, _ := p.parseCallExpr(e, info, wireAlias, filePath, "")
